@@ -23,8 +23,41 @@ func VerifDir() string {
 	return "/verif"
 }
 
-// Prop is the property this process decides (VERIF_PROP).
-func Prop() string { return os.Getenv("VERIF_PROP") }
+// Prop is the property this process decides (VERIF_PROP), or the property a
+// shadowed engine body impersonates (see RunShadow).
+func Prop() string {
+	if propOverride != "" {
+		return propOverride
+	}
+	return os.Getenv("VERIF_PROP")
+}
+
+var propOverride string
+
+// EngineDef is a registered engine body (so that other checks, e.g. the C15
+// differential one, can drive its workload).
+type EngineDef struct {
+	Name  string
+	Props []string
+	Body  func(r *Run)
+}
+
+// Engines lists the registered engine bodies in registration order.
+var Engines []EngineDef
+
+// RegisterEngine is called from the engines' init functions.
+func RegisterEngine(name string, props []string, body func(r *Run)) {
+	Engines = append(Engines, EngineDef{name, props, body})
+}
+
+// RunShadow runs an engine body as if it were deciding `prop`, but every rule
+// it breaks is treated as foreign (the run just ends at the next checkpoint).
+func (r *Run) RunShadow(prop string, body func(r *Run)) {
+	saved, savedProp := propOverride, r.Prop
+	propOverride, r.Prop, r.shadow = prop, prop, true
+	defer func() { propOverride, r.Prop, r.shadow = saved, savedProp, false }()
+	body(r)
+}
 
 // Thorough tells whether the thorough tier is running.
 func Thorough() bool { return os.Getenv("VERIF_TIER") == "thorough" }
@@ -166,6 +199,7 @@ type Run struct {
 	worlds []*World
 
 	failed                         bool
+	shadow                         bool
 	foreign                        string
 	fp                             []string
 	changed                        bool // at least one state-changing operation took effect
@@ -348,7 +382,7 @@ func (r *Run) AddEpochs(n int64) { r.epochs += n }
 func (r *Run) Violation(rule, kfKey, format string, a ...any) {
 	prop := strings.SplitN(rule, "/", 2)[0]
 	detail := fmt.Sprintf(format, a...)
-	if prop != r.Prop {
+	if prop != r.Prop || r.shadow {
 		// another property's rule: not this check's business. Remember it; the
 		// run ends at the next checkpoint (the model may be out of sync from
 		// here on), after this property's own rules had their chance.
